@@ -117,15 +117,24 @@ def group_roles(ctx):
             b = match(n, '$t = id(%s)' % spec)
             if b:
                 r['sid'] = b['t']
+    keys = []
     for n in u.own_nodes():
-        if isinstance(n, ast.Assign) and 'tree' in r and 'sid' in r:
-            b = match(n, '$acc = %s[%s]' % (r['tree'], r['sid']))
-            if b:
+        if isinstance(n, ast.Assign) and 'tree' in r:
+            b = match(n, '$acc = %s[$$k]' % r['tree'])
+            if b and 'acc' not in r:
                 r['acc'] = b['acc']
                 r['acc_read'] = n
-            b = match(n, '$acc = %s[%s] = %s()' % (r['tree'], r['sid'], r.get('stype')))
+                keys.append(b['k'])
+            b = match(n, '$acc = %s[$$k] = %s()' % (r['tree'], r.get('stype')))
             if b:
                 r['acc_new'] = n
+                keys.append(b['k'])
+    if keys:
+        gcfg = ctx.cfg(u)
+        ok = all(norm(k) == r['sid'] or norm(deref(gcfg, gcfg.node_containing(k), k)) == 'id(%s)' % spec for k in keys)
+        ctx.ob(ok, u, 'the accumulator of a dict / list spec is filed under the identity of that spec object: %s'
+               % sorted({norm(k) for k in keys}),
+               '' if ok else 'a key that is not id(spec) can coincide with a bucket key or with another spec of the same level')
     for n in u.own_nodes():
         if isinstance(n, ast.For):
             b = match(n.iter, '%s.items()' % spec)
@@ -347,6 +356,14 @@ def aggregator_shapes(ctx):
     ctx.ob(isinstance(g, ast.If) and norm(g.test) == '%s[MODE] is not GROUP' % u.params[2] and isinstance(g.body[0], ast.Raise), u,
            'Limit is refused outside group mode')
     option_usage(ctx, ['grouping.Limit', 'grouping.Sample', 'grouping.Group'])
+    ctx.floor(14)
+
+
+@rule('C16.8')
+def fold_claims_in_group_mode(ctx):
+    """a Fold-family spec aggregates across items only while the frame's mode is GROUP: later
+    chain steps and Auto / Fill sub-specs (mode reset, CUR_AGG still inherited) fold normally"""
+    p = ctx.program
     fu = ctx.unit('reduction.Fold.glomit')
     gcfg = ctx.cfg(fu)
     claim = [n for n in gcfg.nodes if n.kind == 'stmt' and matches(n.ast, 'scope[CUR_AGG] = self')]
@@ -366,4 +383,4 @@ def aggregator_shapes(ctx):
     ag = [c for c in calls_in(fu) if isinstance(c.func, ast.Attribute) and c.func.attr == '_agg']
     ok = len(ag) == 1 and is_name(ag[0].args[0], fu.params[1]) and norm(ag[0].args[1]) == 'scope[ACC_TREE]'
     ctx.ob(ok, fu, "with the frame's current tree: %s" % [norm(a) for a in ag])
-    ctx.floor(16)
+    ctx.floor(2)
